@@ -6,18 +6,28 @@ CFG = {
                           "RpmVerif.C05.getter_wrong_type", "RpmVerif.C05.filePaths_spec", "RpmVerif.C05.filePaths_bad_index",
                           "RpmVerif.C05.deps_zip", "RpmVerif.C05.getFilePaths_total",
                           "RpmVerif.C05.installed_size_spec", "RpmVerif.C05.installed_size_is_stored", "RpmVerif.C05.compression_names_ascii",
-                          "RpmVerif.C05.compressor_absent_is_none", "RpmVerif.C05.compressor_known_iff", "RpmVerif.C05.source_iff_tag_present"],
+                          "RpmVerif.C05.compressor_absent_is_none", "RpmVerif.C05.compressor_known_iff", "RpmVerif.C05.source_iff_tag_present",
+                          # clause theorems of the composed accessors (AUDIT2 c13 - c15)
+                          "RpmVerif.C05.zip3_spec", "RpmVerif.C05.zip3_getElem?", "RpmVerif.C05.deps_kth", "RpmVerif.C05.changelog_zip",
+                          "RpmVerif.C05.changelog_kth", "RpmVerif.C05.changelog_ok_cases", "RpmVerif.C05.scriptlet_spec",
+                          "RpmVerif.C05.fileEntries_spec", "RpmVerif.C05.entryAt_fields", "RpmVerif.C05.optStrings_ok_iff",
+                          "RpmVerif.C05.fileDigestAlgorithm_ok_iff", "RpmVerif.C05.digest_algo_fallback", "RpmVerif.C05.size_tags_scraped"],
     "trivial_branches": ["rejected"],
     "rule": "asset + fixture packages and seeded hand-encoded headers from a typed generator: every tag an accessor reads, present with "
             "probability 3/5, its natural type 7/8 of the time and any of the 10 types otherwise, counts 0..4 (per-file arrays mostly of one common "
             "length), multi-locale i18n arrays, 32- and 64-bit size tags, dir indexes in and out of range, digest texts of every accepted and "
             "unaccepted length, algorithm numbers in and outside the enum, compressor names (every accepted one, other case, trailing blank, non-ASCII, unknown, empty), non-UTF-8 / empty strings, duplicated tags (first must win), shuffled index, "
-            "optional IMA signatures in the signature header. Observable: a canonical dump of all 40 accessors (errors collapsed to `err`). "
+            "optional IMA signatures in the signature header; directory indexes also from the edges (n - 1, n, 2^16 + i, 2^31 + i, 2^32 - 4 + i, 2^24); one header in six with a NON-CANONICAL "
+            "index entry (offset shared with another entry, count one off, integers at an unaligned offset, an array overlapping its own tail, STRING with count != 1). "
+            "Observable: a canonical dump of all 40 accessors (errors collapsed to `err`). Op get05: the nine typed getters of Header<T> (get_entry_data_as_*, entry_is_present) called "
+            "DIRECTLY on six tags per generated package, main header (tags the accessors read + arbitrary IndexTag variants) or signature header (IndexSignatureTag variants). Op lossy05: "
+            "String::from_utf8_lossy against Model/Utf8.lean: every (non-ASCII lead, second byte) pair, 20 x 20 (x 5) second / third (/ fourth) byte classes after twelve lead bytes incl. E0 / ED / F0 / F4, "
+            "every such sequence as the END of the input, random soups; judged independently by Lean core's UTF-8 validator. "
             "Non-trivial = header accepted; distinct = distinct request lines.",
     "exhaustive": False,
     "shards": {"quick": 4, "thorough": 16},
     "shrink": False,
-    "trusted_base": ["String::from_utf8_lossy, Path::join (executable models, exercised by the correspondence)"],
+    "trusted_base": ["String::from_utf8_lossy (executable model Model/Utf8.lean, validated by the dedicated op lossy05 and judged by Lean core's UTF-8 validator), Path::join (executable model, exercised by the correspondence)"],
     "assumptions": COMMON_ASSUME,
     "level_text": "Theorems over ALL parsed headers: every entry's data is exactly what the store holds at its offset under a parser-independent "
                   "relational reading of the format (Stores); a typed getter yields the projection of the FIRST entry with the tag, TagNotFound when absent, "
@@ -25,6 +35,11 @@ CFG = {
                   "out-of-range index), dependency / changelog lists are the arrays zipped in order, empty when all three tags are absent, an error when a "
                   "member is missing; installed size is the first LONGSIZE value, else exactly what the SIZE getter gives (installed_size_spec, installed_size_is_stored); "
                   "the payload compressor is None for an absent tag, otherwise the variant the source's from_str table (regenerated on every run) pairs with the stored text, and an "
-                  "error for every other text (compressor_absent_is_none, compressor_known_iff); is_source_package is presence of the tag alone (source_iff_tag_present); no accessor panics. The model is tied to the code by comparing the full accessor dump on every generated header. File digests: the (algorithm, hex length) pairs FileDigest::new accepts are regenerated from the source on every run and proved to be the algorithms' real output sizes (file_digest_lengths_standard, code_table_is_standard, fileDigestNew_ok_iff); the spec judges them by the real sizes (SHA-224 = 56: old_sha224_length_witness).",
+                  "error for every other text (compressor_absent_is_none, compressor_known_iff); is_source_package is presence of the tag alone (source_iff_tag_present); no accessor panics. Clause theorems of the composed accessors: zip3_spec / zip3_getElem? (a zipped list has the length of the shortest array and item k is the triple of items k), "
+                  "deps_kth, changelog_zip / changelog_kth / changelog_ok_cases (Ok is either the empty list with all three tags absent or the zip of three arrays read successfully), scriptlet_spec (the script getter decides value / error; "
+                  "flags and interpreter are Some exactly when their getter succeeds, None for absent AND wrong-typed tags - stated), fileEntries_spec + entryAt_fields (Ok(r): r is empty with FILEMODES absent, or "
+                  "r has the length of the shortest of the nine per-file arrays, entry k consists of item k of each, capabilities / IMA signatures by index with None beyond the array's end, sizes from LONGFILESIZES whenever that getter "
+                  "succeeds and from FILESIZES only otherwise, digests None for empty texts and otherwise (algorithm, text) with the pair (algorithm, length) in FileDigest::new's table), digest_algo_fallback + fileDigestAlgorithm_ok_iff "
+                  "(the algorithm is FILEDIGESTALGO when it names a DigestAlgorithm variant, otherwise - absent, other type, unknown number - the variant scraped from unwrap_or(..), Md5), size_tags_scraped. The model is tied to the code by comparing the full accessor dump on every generated header. File digests: the (algorithm, hex length) pairs FileDigest::new accepts are regenerated from the source on every run and proved to be the algorithms' real output sizes (file_digest_lengths_standard, code_table_is_standard, fileDigestNew_ok_iff); the spec judges them by the real sizes (SHA-224 = 56: old_sha224_length_witness).",
     "level_note": "Trusted: Lean kernel; model fidelity as exercised (40 accessors compared textually per case); from_utf8_lossy and Path::join models.",
 }
